@@ -14,7 +14,7 @@ Local Open Scope Z_scope.
    1. touched_in_view.  The view invariant: byteOffset, length >= 0, byteOffset aligned to the
    element size, byteOffset + length*size <= the memory of the buffer (same for DataViews). *)
 
-(* For BOTH readings, every state satisfying the invariant, every one of the 18 operations and every
+(* For BOTH readings, every state satisfying the invariant, every one of the 21 operations and every
    argument combination (incl. arguments whose valueOf detaches any buffer): each touched range is
    empty, or lies on a buffer that is NOT detached at the moment of the access and inside a region the
    operation is entitled to — the view(s)/DataView it was called on, the receiver buffer of
@@ -54,34 +54,25 @@ Proof. vm_compute. split; reflexivity. Qed.
 (* ------------------------------------------------------------------------------------------------
    2. bytes_eq_spec: goja's arithmetic = the specification, on the new state (all bytes), the result
    and the touched ranges, for every state satisfying the invariant and every operation inside the
-   explicit guard.  The guard excludes exactly: (a) V[k] = v with a non-index numeric key and a value
-   of the wrong type (open finding C17-N9); (b) fill with a value of the wrong type (open finding
-   C17-N8, coercion order); (c) set(typedArray) between DIFFERENT element kinds on the SAME buffer
-   (goja copies in place in an address-dependent order, the spec from a clone; proved equal for
-   distinct buffers, covered by the correspondence runs for overlapping ones). *)
+   explicit guard.  The guard excludes exactly one region: set(typedArray) between DIFFERENT element
+   kinds on the SAME buffer (goja copies in place in an address-dependent order, the spec from a clone:
+   the order of the touches differs; equality of the bytes is proved for distinct buffers and covered
+   by the correspondence runs, incl. the all-pairs corpus sweep, for overlapping ones). *)
 Theorem bytes_eq_spec : forall st o,
   ViewInv st -> eq_guard st o = true -> step MI st o = step MS st o.
 Proof. exact ProofsEq.bytes_eq_spec. Qed.
 
-Example guard_excludes_open_findings :
-  eq_guard st_n8 op_n8 = false /\ eq_guard st_n8 (OSet 0 KNonInt (vnum 1 None)) = false /\
-  eq_guard st_n8 (OSet 0 (KIdx 1) (vnum 1 None)) = true /\ eq_guard st_n8 (OFill 0 (mkV true (-1) None) None None) = true.
-Proof. exact ProofsEq.guard_excludes_open_findings. Qed.
+Example guard_examples :
+  eq_guard st_ov (OSetTyped 0 1 (num 0 None)) = false /\ eq_guard st_ov (OSetTyped 0 2 (num 0 None)) = true /\
+  eq_guard st_ov (OSetTyped 1 2 (num 0 None)) = true /\ eq_guard st_n8 (OFill 0 (vnum 1 None) (Some (num 0 (Some 0%nat))) None) = true /\
+  fst (fst (step MI st_ov (OSetTyped 0 1 (num 0 None)))) = fst (fst (step MS st_ov (OSetTyped 0 1 (num 0 None)))) /\
+  step MI st_ov (OSetTyped 0 1 (num 0 None)) <> step MS st_ov (OSetTyped 0 1 (num 0 None)).
+Proof. exact ProofsEq.guard_examples. Qed.
 
 (* goja's integer element conversions (floatToInt64Mod32 + narrowing) are the modular ones, for every
    float incl. |x| >= 2^63 (F10 repaired) *)
 Theorem int_conv_eq : forall k p, raw_bits MI k p = raw_bits MS k p.
 Proof. exact ProofsEq.raw_bits_eq. Qed.
-
-(* the two open divergences, by witnesses *)
-Theorem fill_order_refuted :
-  snd (fst (step MS st_n8 op_n8)) = RErr TypeError /\ snd (fst (step MI st_n8 op_n8)) = RErr TypeError /\
-  is_det (fst (fst (step MS st_n8 op_n8))) 0%nat = false /\ is_det (fst (fst (step MI st_n8 op_n8))) 0%nat = true.
-Proof. exact Proofs.fill_order_refuted. Qed.
-Theorem nonindex_key_refuted :
-  snd (fst (step MS st_n8 (OSet 0 KNonInt (vnum 1 None)))) = RErr TypeError /\
-  snd (fst (step MI st_n8 (OSet 0 KNonInt (vnum 1 None)))) = RUndef.
-Proof. exact Proofs.nonindex_key_refuted. Qed.
 
 (* ------------------------------------------------------------------------------------------------
    3. raw_roundtrip: RawBytesToNumeric (NumericToRawBytes k v) = ToType k v for all 11 kinds, both
@@ -142,8 +133,6 @@ Print Assumptions inv_step.
 Print Assumptions touched_in_view_history.
 Print Assumptions bytes_eq_spec.
 Print Assumptions int_conv_eq.
-Print Assumptions fill_order_refuted.
-Print Assumptions nonindex_key_refuted.
 Print Assumptions raw_roundtrip.
 Print Assumptions raw_roundtrip_bits.
 Print Assumptions bits64_roundtrip.
